@@ -185,7 +185,7 @@ def pinned_internal_errors(prop, work):
     out, notes = [], []
     known = C.load_known()
     for f in known.get("findings", []):
-        if f.get("property") != prop or not f.get("pinned_internal_error"):
+        if (f.get("property") != prop and prop not in f.get("properties", [])) or not f.get("pinned_internal_error"):
             continue
         path = os.path.join(C.VERIF, f["repro"])
         text = open(path, encoding="utf-8").read()
